@@ -36,23 +36,29 @@ def run(ck):
                       "conservation, not for the neighbour relation",
                       "the id() tie-break of group_textboxes is a nondeterministic choice in the specification; the real "
                       "result must be one of the specification's outcomes"]
-    # the intended design: all C08 invariants must hold
     quick = ck.tier == "quick"
-    LC.direction_a(ck, PID, LC.C08_INV, [], pdf_every=2 if quick else 1, pdf_scales=[1] if quick else [1, 8],
-                   pdf_text_every=1)
-    # the design as coded (named deviations of known findings switched on): TLC shows it breaks the property
+    # B, first half: the real analysis of the samples is recorded and the C08 predicates are evaluated on every real tree
+    traces = LC.record_samples(ck, PID)
+    jobs = LC.trace_jobs(ck, traces, dev, PID)
+    # the design as coded (named deviations of known findings switched on): TLC shows that it breaks the property
     if dev:
-        res = LC.ascoded_model_run(ck, dev, LC.C08_INV)
+        jobs.append(lambda: LC.ascoded_model_run(ck, dev, LC.C08_INV))
+    # A: the intended design - all C08 invariants must hold; every completed analysis is replayed on the real code.
+    # (the TLC runs of B - trace validation - run alongside)
+    LC.direction_a(ck, PID, LC.C08_INV, [], pdf_every=3 if quick else 1, pdf_scales=[1] if quick else [1, 8],
+                   pdf_text_every=1, extra_jobs=jobs)
+    xr = LC.extra_results()
+    if dev:
+        res = xr.pop()
+        ck.add_tlc(res, "as-coded design (Dev=%s) on a small space" % ",".join(dev))
         if res.ok:
             ck.note("as-coded specification (Dev=%s) no longer violates a C08 invariant on the small space" % dev)
+        elif res.violated == "Indices0toN" and "NoIndexFlowNone" in dev:
+            ck.violation("dev:NoIndexFlowNone", "TLC: Indices0toN violated on the as-coded design", None)
         else:
-            for d in dev:
-                if res.violated == "Indices0toN" and d == "NoIndexFlowNone":
-                    ck.violation("dev:NoIndexFlowNone", "TLC: Indices0toN violated on the as-coded design", None)
-                else:
-                    ck.violation("model-ascoded:%s" % res.violated, "TLC: %s violated on the as-coded design" % res.violated,
-                                 {"tlc": res.error_text[:4000]})
-    LC.direction_b(ck, PID, dev)
+            ck.violation("model-ascoded:%s" % res.violated, "TLC: %s violated on the as-coded design" % res.violated,
+                         {"tlc": res.error_text[:4000]})
+    LC.finish_traces(ck, xr)
     ck.exhaustive = True
 
 
